@@ -27,6 +27,11 @@ def handleSasa : List String → String
       ",".intercalate ((atoms.zipIdx).map (fun p =>
         s!"{countAtom atoms points p.2 p.1}:{countSpec atoms points p.2 p.1}:{marginal atoms points p.2 p.1 t}"))
     | _, _, _ => "bad-op"
+  -- sasamask <n> <none | - | i,j,…>: the selection mask as a string of 0/1
+  | ["sasamask", n, idx] =>
+    match n.toNat?, (if idx == "none" then some none else if idx == "-" then some (some []) else ((idx.splitOn ",").mapM (fun (w : String) => w.toNat?)).map some) with
+    | some n, some sel => "".intercalate ((maskOf n sel).map (fun b => if b then "1" else "0"))
+    | _, _ => "bad-op"
   | _ => "bad-op"
 
 end MdVerif.Driver.SasaP
